@@ -852,6 +852,10 @@ class SyncState:  # pylint: disable=too-many-instance-attributes, too-many-publi
         if ent[side].otype == DIRECTORY and prior_path != path and not prior_path is None:
             # changing directory also changes child paths
             for sub, relative in self.get_kids(prior_path, side):
+                if sub is ent:
+                    # a stale event can name a new path below the folder's own prior path: the folder itself then
+                    # looks like one of its kids, and moving it again would recurse without end
+                    continue
                 new_path = provider.join(path, relative)
                 if provider.oid_is_path:
                     # TODO: state should not do online hits esp from event manager
